@@ -217,8 +217,17 @@ def check_wiring(ctx, res):
         for c in cf.calls():
             if c.local and mir.fns[c.rkey].output and mir.fns[c.rkey].output["s"].endswith("KikiErr") and len(c.args) == 2:
                 conv_calls.append((cf, c))
-    if len(conv_calls) != 1:
-        res.floor("anchor: parse-error conversion called from a closure of generate", len(conv_calls), 1)
+    direct = []
+    if not conv_calls:
+        # hand-written form: `match parse(tokens) { Err(u) => return Err(conv(u.as_ref(), src)), .. }` in generate itself
+        for c in g.calls():
+            if c.local and mir.fns[c.rkey].output and mir.fns[c.rkey].output["s"].endswith("KikiErr") and len(c.args) == 2:
+                direct.append(c)
+    if len(conv_calls) != 1 and len(direct) != 1:
+        res.floor("anchor: parse-error conversion called from generate or a closure of generate", len(conv_calls) + len(direct), 1)
+        return
+    if direct:
+        check_direct_conversion(mir, res, rule, g, ex, tok_call, parse_call, direct[0])
         return
     cf, cc = conv_calls[0]
     cex = Exprs(cf)
@@ -245,6 +254,44 @@ def check_wiring(ctx, res):
                 res.inst(rule, "closure-capture", g.where, True, "captures %r" % ops)
     if not cap_ok:
         res.violate(rule, "closure-capture", g.where, "the error-conversion closure does not capture generate's own `src` parameter (and only it)")
+    check_stage_guards(mir, res, rule, g, ex, tok_call, parse_call, [])
+
+
+def check_direct_conversion(mir, res, rule, g, ex, tok_call, parse_call, cc):
+    """the conversion is called in generate itself on the parser's Err payload and its result is returned as Err"""
+    tok_arg = ex.operand(cc.args[0])
+    src_arg = ex.operand(cc.args[1])
+    t = tok_arg
+    okt = t.k == "call" and t.a[0] == "std::option::Option::<T>::as_ref"
+    if okt:
+        cur = strip_transparent(t.a[1][0])
+        while cur.k in ("field", "downcast", "ref", "deref"):
+            cur = strip_transparent(cur.a[0])
+        okt = cur.k == "call" and cur.site is not None and cur.site.bb == parse_call.bb and "Err" in canon(strip_transparent(t.a[1][0]))
+    s_ = strip_transparent(src_arg)
+    oks = s_.k == "param" and s_.a[0] == 1
+    res.inst(rule, "conversion-args", cc.where, True, "token: %r ; src: %r" % (tok_arg, src_arg))
+    if not okt:
+        res.violate(rule, "conversion-token-arg", cc.where, "the conversion does not receive the parser's unexpected token as is (by reference): %r" % tok_arg)
+    if not oks:
+        res.violate(rule, "conversion-src-arg", cc.where, "the conversion does not receive generate's own source text: %r" % src_arg)
+    # its result is what generate returns as Err
+    ret = strip_transparent(ex.local(0))
+    outs = ret.a[0] if ret.k == "phi" else [ret]
+    returned = False
+    for o in outs:
+        o = strip_transparent(o)
+        if o.k == "agg" and str(o.a[1]).endswith("::Err") and o.a[2]:
+            pv = strip_transparent(o.a[2][0])
+            if pv.k == "call" and pv.site is not None and pv.site.bb == cc.bb:
+                returned = True
+    res.inst(rule, "conversion-returned", cc.where, True, "returned as Err: %s" % returned)
+    if not returned:
+        res.violate(rule, "conversion-returned", cc.where, "the converted parse error is not what generate returns as its Err")
+    check_stage_guards(mir, res, rule, g, ex, tok_call, parse_call, [cc])
+
+
+def check_stage_guards(mir, res, rule, g, ex, tok_call, parse_call, extra):
     # the same src goes to the tokenizer
     ta = ex.operand(tok_call.args[0])
     while ta.k in ("ref", "deref"):
@@ -255,7 +302,7 @@ def check_wiring(ctx, res):
     # only on Try::branch switches, and generate builds no error of its own
     from ..mir import control_deps_transitive
     cdt = control_deps_transitive(g)
-    for c in (tok_call, parse_call):
+    for c in [tok_call, parse_call] + list(extra):
         for (a, s_) in cdt.get(c.bb, ()):
             t_ = g.blocks[a]["term"]
             if t_["k"] == "switch":
